@@ -27,6 +27,21 @@ const (
 
 var ekNames = []string{"plain", "wrapf", "transport", "application", "foreign", "foreign-embedding", "protocol", "protocol-wrapping"}
 
+// aggErr is a plain error whose dynamic type is not comparable (nor hashable).
+type aggErr []string
+
+func (e aggErr) Error() string { return "agg" + fmt.Sprint([]string(e)) }
+
+// sameErr is == on error values that never panics (false for non-comparable dynamic types).
+func sameErr(a, b error) (eq bool) {
+	defer func() {
+		if recover() != nil {
+			eq = false
+		}
+	}()
+	return a == b
+}
+
 type foreignExc struct {
 	id  int32
 	msg string
@@ -111,6 +126,9 @@ func genTerm(cs *drv.Case, depth int) *enode {
 	txt := c18Text(r)
 	switch k {
 	case ekPlain:
+		if r.Intn(5) == 0 {
+			return &enode{kind: ekPlain, err: aggErr{txt, "x"}}
+		}
 		return &enode{kind: ekPlain, err: errors.New(txt)}
 	case ekWrapf:
 		in := genTerm(cs, depth-1)
@@ -131,18 +149,26 @@ func genTerm(cs *drv.Case, depth int) *enode {
 	pe := thrift.NewProtocolExceptionWithErr(in.err)
 	if in.kind == ekProtocol || in.kind == ekProtoWrap {
 		// identity on errors that already are protocol exceptions
-		if error(pe) != in.err {
+		if !sameErr(pe, in.err) {
 			cs.Fail("wrap-not-identity", nil, M{"term": in.describe(), "message": "NewProtocolExceptionWithErr did not return the protocol exception it was given"})
 		}
 		return in
 	}
 	n := &enode{kind: ekProtoWrap, err: pe, inner: in}
 	// cause reachable
-	if errors.Unwrap(pe) != in.err {
+	if !sameErr(errors.Unwrap(pe), in.err) && !(in.kind == ekPlain && fmt.Sprint(errors.Unwrap(pe)) == fmt.Sprint(in.err) && !isComparable(in.err)) {
 		cs.Fail("wrap-unwrap", M{"cause_kind": ekNames[in.kind]}, M{"term": in.describe(), "message": fmt.Sprintf("errors.Unwrap(wrapper) = %v, want the wrapped error itself", errors.Unwrap(pe))})
 	}
-	if !errors.Is(pe, in.err) {
+	if isComparable(in.err) && !errors.Is(pe, in.err) {
 		cs.Fail("wrap-is-cause", M{"cause_kind": ekNames[in.kind]}, M{"term": in.describe(), "message": "errors.Is(wrapper, cause) is false"})
+	}
+	if !isComparable(in.err) {
+		// errors.Is cannot match a non-comparable value; it must not panic, and errors.As must reach it
+		_ = errors.Is(pe, in.err)
+		var got aggErr
+		if !errors.As(pe, &got) {
+			cs.Fail("wrap-as-cause", M{"cause_kind": "non-comparable"}, M{"term": in.describe(), "message": "errors.As does not reach the wrapped cause"})
+		}
 	}
 	cs.C.Obs("wrappers built", 1)
 	return n
@@ -153,7 +179,7 @@ func modelIs(e, x *enode) bool {
 	if e == nil {
 		return false
 	}
-	if e.err == x.err {
+	if sameErr(e.err, x.err) {
 		return true
 	}
 	switch e.kind {
@@ -167,6 +193,11 @@ func modelIs(e, x *enode) bool {
 		return modelIs(e.inner, x)
 	}
 	return false
+}
+
+func isComparable(e error) bool {
+	defer func() { recover() }()
+	return e == e
 }
 
 func hasProtocolOnChain(e *enode) bool {
@@ -227,6 +258,9 @@ func monC18(c *drv.Ctx) {
 		prefix := ""
 		if cs.R.Intn(4) > 0 {
 			prefix = string(gen.Bytes(cs.R, 1+cs.R.Intn(10))) + ": "
+		}
+		if cs.R.Intn(6) == 0 {
+			prefix = []string{"100% of retries failed: ", "%", "%%", "%s: ", "%w", "a%!b", "{}%v\\n"}[cs.R.Intn(7)]
 		}
 		cs.Desc = M{"term": t.describe(), "prefix": prefix}
 		c18Prepend(cs, t, prefix)
